@@ -927,6 +927,7 @@ def check_weights(ctx: Ctx):
 def check_insitu(ctx: Ctx):
     r = ctx.rng
     nbad = 0
+    keys = {}
     n = ctx.budget(5, 40)
     for _ in range(n):
         case = gen_insitu_case(r)
@@ -937,9 +938,10 @@ def check_insitu(ctx: Ctx):
         ctx.cov["traces_validated_against_impl"] += 1
         for key, what in bad:
             nbad += 1
+            keys[key] = keys.get(key, 0) + 1
             ctx.violation(key, "inside a preprocessed Ptychography object: " + what, dict(case))
         ctx.sample({"kind": "insitu", "case": {k: case[k] for k in ("ty", "S", "K", "pad", "weights")}, **info}, limit=8)
-    ctx.log("in situ (toy Ptychography): %d objects, %d clause failures" % (n, nbad))
+    ctx.log("in situ (toy Ptychography): %d objects, %d clause failures %s" % (n, nbad, keys or ""))
 
 
 def run(ctx: Ctx):
